@@ -1,5 +1,6 @@
 import OutlineModel.Gen.LockFacts
 import OutlineModel.Gen.Wiring
+import OutlineModel.Proofs.LockSet
 /-
 C19 — Shared server state is free of data races under concurrent use.
 
@@ -103,5 +104,23 @@ theorem immutables_never_written : ∀ f ∈ immutableFields, immutableOK f.1 f.
     the tunnel-time collector touches its state inside one critical section. -/
 theorem operations_atomic : ∀ o ∈ atomicOps,
     oneSection o.1 o.2 ((guardedFields.filter fun g => g.1 == o.1).map fun g => g.2.1) = true := by decide +kernel
+
+/-- **lockset_race_free** (generic): in any execution that respects mutual exclusion, if every access
+    to a variable happens while its guard is held, two accesses by different goroutines are ordered
+    by a release of the guard by the first and an acquisition by the second — they are not a data
+    race under the Go memory model. -/
+theorem lockset_race_free {tr : List LockSet.Ev} {x g i j t1 t2 : Nat}
+    (hw : LockSet.WellFormed tr) (hg : LockSet.Guarded tr x g)
+    (hi : LockSet.accessAt tr i t1 x) (hj : LockSet.accessAt tr j t2 x) (hij : i < j) (hne : t1 ≠ t2) :
+    ∃ k k', i < k ∧ k < k' ∧ k' < j ∧ tr[k]? = some (.rel t1 g) ∧ tr[k']? = some (.acq t2 g) :=
+  LockSet.lockset_happens_before hw hg hi hj hij hne
+
+/-- **sections_serial** (generic): critical sections of one lock never overlap, so state touched only
+    inside them evolves by whole sections, in the order of acquisition (a sequential order of the
+    operations, given `operations_atomic`). -/
+theorem sections_serial {tr : List LockSet.Ev} {g i j t1 t2 : Nat} (hw : LockSet.WellFormed tr)
+    (hi : tr[i]? = some (.acq t1 g)) (hj : tr[j]? = some (.acq t2 g)) (hij : i < j) :
+    ∃ k, i < k ∧ k < j ∧ tr[k]? = some (.rel t1 g) :=
+  LockSet.sections_serial hw hi hj hij
 
 end OutlineModel.Props.C19
